@@ -13,34 +13,37 @@ Open Scope N_scope.
 (* ------------------------------------------------------------------ *)
 (* RFC 6052: extract (embed) — all six lengths, all prefixes, all 2^32 IPv4
    addresses, symbolic in the bytes *)
+(* [legal_prefix p]: validatePrefix accepts p and it has 16 bytes — nothing
+   else (in particular not "host part zero", which ParseCIDR happens to
+   deliver) is needed *)
 Theorem extract_embed :
-  forall p v4, wf_prefix p -> length v4 = 4%nat -> extract cur p (embed p v4) = Some v4.
-Proof. exact extract_embed_now. Qed.
+  forall p v4, legal_prefix p -> length v4 = 4%nat -> extract cur p (embed p v4) = Some v4.
+Proof. exact extract_embed_legal. Qed.
 Print Assumptions extract_embed.
 
 (* the layout: RFC 6052 2.2 octet positions, u octet zero, prefix kept, suffix zero *)
 Theorem embed_layout :
-  forall p v4, wf_prefix p -> length v4 = 4%nat ->
+  forall p v4, legal_prefix p -> length v4 = 4%nat ->
   spec_embed p v4 = Some (embed p v4)
   /\ length (embed p v4) = 16%nat
   /\ nthb (embed p v4) 8 = 0
   /\ firstn (N.to_nat (n_ones p / 8)) (embed p v4) = firstn (N.to_nat (n_ones p / 8)) (n_ip p)
   /\ all_zero (skipn (suffix_start (n_ones p)) (embed p v4)) = true.
-Proof. exact Proofs_embed.embed_layout. Qed.
+Proof. exact embed_layout_legal. Qed.
 Print Assumptions embed_layout.
 
 (* extract succeeds only on embeddings: with extract_embed this makes it the inverse *)
 Theorem extract_only_embeddings :
-  forall p a v4, wf_prefix p -> bytes_ok (n_ip p) -> length a = 16%nat -> bytes_ok a ->
+  forall p a v4, legal_prefix p -> bytes_ok (n_ip p) -> length a = 16%nat -> bytes_ok a ->
   extract cur p a = Some v4 -> a = embed p v4 /\ length v4 = 4%nat.
-Proof. exact extract_sound_now. Qed.
+Proof. exact extract_sound_legal. Qed.
 Print Assumptions extract_only_embeddings.
 
 Theorem extract_rejects_nonconformant :
-  forall p a, wf_prefix p -> bytes_ok (n_ip p) -> length a = 16%nat -> bytes_ok a ->
+  forall p a, legal_prefix p -> bytes_ok (n_ip p) -> length a = 16%nat -> bytes_ok a ->
   nthb a 8 <> 0 \/ all_zero (skipn (suffix_start (n_ones p)) a) = false ->
   extract cur p a = None.
-Proof. exact extract_rejects_u_or_suffix_now. Qed.
+Proof. exact extract_rejects_legal. Qed.
 Print Assumptions extract_rejects_nonconformant.
 
 (* ------------------------------------------------------------------ *)
@@ -54,28 +57,35 @@ Proof. exact parse_arpa_name. Qed.
 Print Assumptions arpa_name_parses.
 
 Theorem ptr_roundtrip :
-  forall p v4, wf_prefix p -> bytes_ok (n_ip p) -> length v4 = 4%nat -> bytes_ok v4 ->
+  forall p v4, legal_prefix p -> bytes_ok (n_ip p) -> length v4 = 4%nat -> bytes_ok v4 ->
   match parse_ip6_arpa (arpa_name (embed p v4)) with
   | Some addr => extract cur p addr
   | None => None
   end = Some v4.
-Proof. exact ptr_roundtrip_now. Qed.
+Proof. exact ptr_roundtrip_legal. Qed.
 Print Assumptions ptr_roundtrip.
 
 Theorem ptr_handler_roundtrip :
-  forall c cp v4, c_prefixes c = [cp] -> wf_prefix (cp_net cp) -> bytes_ok (n_ip (cp_net cp)) ->
+  forall c cp v4, c_prefixes c = [cp] -> legal_prefix (cp_net cp) -> bytes_ok (n_ip (cp_net cp)) ->
   length v4 = 4%nat -> bytes_ok v4 -> should_exclude_a c v4 cp = false ->
   ptr_target cur c (lower (arpa_name (embed (cp_net cp) v4))) = Some v4.
-Proof. exact ptr_target_roundtrip_now. Qed.
+Proof. exact ptr_target_roundtrip_legal. Qed.
 Print Assumptions ptr_handler_roundtrip.
+
+Theorem ptr_handler_translates :
+  forall c cp v4, In cp (c_prefixes c) -> legal_prefix (cp_net cp) -> bytes_ok (n_ip (cp_net cp)) ->
+  length v4 = 4%nat -> bytes_ok v4 -> should_exclude_a c v4 cp = false ->
+  exists w, ptr_target cur c (lower (arpa_name (embed (cp_net cp) v4))) = Some w.
+Proof. exact ptr_target_translates. Qed.
+Print Assumptions ptr_handler_translates.
 
 Theorem ptr_target_sound :
   forall c addr ps v4,
-  Forall (fun p => wf_prefix (cp_net p) /\ bytes_ok (n_ip (cp_net p))) ps ->
+  Forall (fun p => legal_prefix (cp_net p) /\ bytes_ok (n_ip (cp_net p))) ps ->
   length addr = 16%nat -> bytes_ok addr ->
   ptr_find cur c addr ps = Some v4 ->
   exists p, In p ps /\ addr = embed (cp_net p) v4 /\ length v4 = 4%nat /\ should_exclude_a c v4 p = false.
-Proof. exact ptr_find_embedding. Qed.
+Proof. exact ptr_find_embedding_legal. Qed.
 Print Assumptions ptr_target_sound.
 
 Theorem in_addr_arpa_roundtrip :
@@ -185,6 +195,33 @@ Theorem owner_follows_chain :
   o = chain_terminal 16 (q_name q) (m_answer ar).
 Proof. exact (owner_follows_chain_lem cur). Qed.
 Print Assumptions owner_follows_chain.
+
+(* "owned by the queried name after any alias chain", for chains of any
+   length: if the A response's CNAME/DNAME records lead from the queried name
+   to t and its A records sit at t, then the synthesised reply carries that
+   chain from the queried name to t, every synthesised AAAA is owned by t,
+   and there is one *)
+Theorem owner_after_alias_chain :
+  forall cf q m mark work ar r t,
+  x_path (serve cur cf q (Some (m, mark)) work (QResp ar)) = PSynth ->
+  x_reply (serve cur cf q (Some (m, mark)) work (QResp ar)) = Some r ->
+  alias_chain (q_name q) (filter is_chain (m_answer ar)) t ->
+  (forall o ta ip, In (RA o ta ip) (m_answer ar) -> o = t) ->
+  alias_chain (q_name q) (filter is_chain (r_answer r)) t
+  /\ (forall o ttl e, In (RAAAA o ttl e) (r_answer r) -> o = t)
+  /\ (exists ttl e, In (RAAAA t ttl e) (r_answer r)).
+Proof. exact (owner_after_alias_chain_lem cur). Qed.
+Print Assumptions owner_after_alias_chain.
+
+(* through the production composition (server -> pipeline -> auto-wired
+   pipeline Queryer -> sub-pipeline): synthesis needs a sub-query that was
+   answered, without a request-local failure marker, NOERROR, with an A record *)
+Theorem wire_synth_needs_answered_sub_query :
+  forall cf q down s, x_path (serve_wire cf q down s) = PSynth ->
+  exists m mark, s = SubWrite m mark /\ mark <> 2 /\ mark <> 3 /\ m_rcode m = 0
+                 /\ exists o t ip, In (RA o t ip) (m_answer m).
+Proof. exact Proofs_serve.wire_synth_needs_answered_sub_query. Qed.
+Print Assumptions wire_synth_needs_answered_sub_query.
 
 (* ------------------------------------------------------------------ *)
 (* never AD: a reply that is not the very message the next handler wrote —
